@@ -290,6 +290,9 @@ def run(ctx):
     f, s_p, qmap, ql = c12.check_queue_order(_Renumber(ctx, {1: 4}))
     c12.check_pool_choice(_Renumber(ctx, {4: 1}), f, s_p)
     c12.check_suspension(_Renumber(ctx, {5: 3, 6: 3}, drop=(7,)), f, s_p, qmap, admissibility_only=True)   # re-offer (#7) is C12's own
+    # a Suspend (and the priority scheduler's table of displaced work) names a container by its id alone: ids must be one per container
+    from . import c09
+    c09.check_container_ids(_Renumber(ctx, {2: 3}), 2)
     check_ops(ctx, 4)
     # with single-operator containers the operator handed out must be *ready* (parents complete): a child of a running parent
     # would be refused by the executor's dependency check when its container starts (naive / starter: the clause is C17#5)
